@@ -48,7 +48,7 @@ fn norm_tag(tag: &str) -> String {
 
 /// Returns None if the property holds on this text, Some(kind) otherwise.
 fn token_verdict(text: &str) -> (Option<String>, Value) {
-    let reference = tok::tokenize(text);
+    let reference = tok::tokenize_opt(text, true);
     let r = guarded(|| parse_block4_fields(text));
     let map = match r {
         Err(p) => return (Some(format!("panic:{}", p.split(':').next().unwrap_or(""))), json!({"panic": p})),
@@ -133,7 +133,7 @@ pub fn run_tokens(args: &[String]) -> i32 {
             let text = text_of(&lines, sep);
             evaluated += 1;
             // trusted-base check: the Rust twin of Tok agrees with TLC's token list in shape
-            let twin = tok::tokenize(&text);
+            let twin = tok::tokenize_opt(&text, true);
             let spec_toks = v["toks"].as_array().cloned().unwrap_or_default();
             let shape_ok = twin.tokens.len() == spec_toks.len()
                 && twin.tokens.iter().zip(spec_toks.iter()).all(|(a, b)| {
